@@ -21,6 +21,11 @@ class HarnessMisuse(RuntimeError):
     pass
 
 
+class EnvValueError(ValueError):
+    """numpy's own argument validation, reproduced by the controller: the real generator would have raised
+    ValueError at this call, so the exception belongs to the code under test, not to the harness"""
+
+
 class Controller:
     """decision bookkeeping shared by all environments"""
 
@@ -91,23 +96,23 @@ def validate_p(a, size, replace, p):
     under the real generator also raises under the controller"""
     n = int(a) if np.isscalar(a) else len(a)
     if n <= 0:
-        raise ValueError('a must be non-empty')
+        raise EnvValueError('a must be non-empty')
     if p is not None:
         pp = np.asarray(p, dtype=float)
         if pp.ndim != 1 or pp.size != n:
-            raise ValueError("'a' and 'p' must have same size")
+            raise EnvValueError("'a' and 'p' must have same size")
         if np.isnan(pp).any():
-            raise ValueError('probabilities contain NaN')
+            raise EnvValueError('probabilities contain NaN')
         if (pp < 0).any():
-            raise ValueError('probabilities are not non-negative')
+            raise EnvValueError('probabilities are not non-negative')
         if abs(pp.sum() - 1.0) > 1e-8:
-            raise ValueError('probabilities do not sum to 1')
+            raise EnvValueError('probabilities do not sum to 1')
         if not replace and size is not None:
             k = int(np.prod(size))
             if np.count_nonzero(pp > 0) < k:
-                raise ValueError('Fewer non-zero entries in p than size')
+                raise EnvValueError('Fewer non-zero entries in p than size')
     if not replace and size is not None and int(np.prod(size)) > n:
-        raise ValueError("Cannot take a larger sample than population when 'replace=False'")
+        raise EnvValueError("Cannot take a larger sample than population when 'replace=False'")
     return n
 
 
